@@ -118,7 +118,7 @@ def run(O, P):
         return len(native_cases) - 1
     for i in range(n):
         rng = random.Random("%s/c11/%d" % (O.seed, i))
-        kind = ["single", "rewrite-lookup-rewrite", "then-notmodified", "interleaved", "chained", "single", "chained-rewrite-twice"][i % 7]
+        kind = ["single", "rewrite-lookup-rewrite", "then-notmodified", "interleaved", "chained", "single", "chained-rewrite-twice", "then-refused"][i % 8]
         chained = kind.startswith("chained")
         cfg = vlib.default_config(chainSourceMap=chained, telemetryVerbosity=["DEBUG", "OFF", "INFORMATION", "MANDATORY", "DEBUG"][i % 5])
         fa, fb = "/app/src/a%d.js" % i, "/app/lib/b%d.js" % i
@@ -152,6 +152,16 @@ def run(O, P):
             steps.append({"op": "run", "file": fa})
             lines, off = rw(fa, modified=False, ch=False)
             steps.append({"op": "run", "file": fa}); expect.append((len(steps) - 1, fa, lines, 0, False))
+        elif kind == "then-refused":
+            # the second rewrite of the file is refused (a reserved identifier): the caller serves that text as written,
+            # the map of the first rewrite no longer applies
+            rw(fa)
+            steps.append({"op": "run", "file": fa})
+            code, lines, off = throwing_program(rng, True, False, evals=use_evals)
+            code = "var __datadog_test_0 = 1; // reserved\n" + code
+            lines = {k: v + 1 for k, v in lines.items()}
+            steps.append({"op": "rewrite", "file": fa, "code": code, "native": native(cfg, code, fa)})
+            steps.append({"op": "run", "file": fa}); expect.append((len(steps) - 1, fa, lines, 0, False))
         elif kind == "interleaved":
             la, offa = rw(fa)
             lb, offb = rw(fb)
@@ -159,6 +169,16 @@ def run(O, P):
             la2, offa2 = rw(fa)
             steps.append({"op": "run", "file": fb}); expect.append((len(steps) - 1, fb, lb, offb, True))
             steps.append({"op": "run", "file": fa}); expect.append((len(steps) - 1, fa, la2, offa2, True))
+        if i % 40 == 5:
+            # many other files are rewritten (and looked up) in between: the map of a rewritten file is kept as long as the file is served
+            small = "function other(a, b) {\n  return a + b;\n}\n"
+            for j in range(1100):
+                fo = "/app/many/m%d_%d.js" % (i, j)
+                steps.append({"op": "rewrite", "file": fo, "code": small, "native": native(cfg, small, fo)})
+                if j % 100 == 0:
+                    steps.append({"op": "lookup", "file": fo, "line": 2, "column": 3})
+            idx0, f0, l0, o0, m0 = expect[-1]
+            steps.append({"op": "run", "file": f0}); expect.append((len(steps) - 1, f0, l0, o0, m0))
         # files nothing is known about, hostile arguments: unchanged, never throw
         for (f, l, c) in [("/nowhere/x.js", 3, 4), ("", 1, 1), (fa + ".other", 10, 2), (fa, 0, 0), (fa, -5, -1), (fa, 10 ** 9, 1), (fa, 2, 10 ** 9), (None, 1, 1), (fa, None, None), (fa, "7", "3"), (fa, 1.5, 2.5)]:
             steps.append({"op": "lookup", "file": f, "line": l, "column": c, "hostile": True})
